@@ -21,9 +21,18 @@ width `E`, then the shape as a flat list of naturals in the grammar of `Packing.
       (`P3R.Packing.hidMerge`, the model of `merge_hiding_random_openings`; `ok-dead=k` would mean
        a successful merge left `k` allocated hiding inputs unconsumed — excluded by
        `P3R.C14.hidMerge_complete`)
+
+  friphase logBlowup logFinal inCap n a_0 h_0 … a_{n-1} h_{n-1}
+                        one FRI query over a single committed matrix of maximal height: FRI parameters,
+                        cap height of the input commitment, then per commit phase its log-arity and the
+                        cap height of its commitment
+    → friphase in=m ph=v_0,…,v_{n-1}    v = m (opening hashed and compared with the cap) | f (fold only)
+      friphase error:in | friphase error:ph<k>   (cap higher than the tree: construction refused)
+      (`P3R.Packing.friPhases`, the model of the commit-phase loop of `verify_fri_circuit`)
 -/
 import P3R.Model.Packing
 import P3R.Model.HidingMerge
+import P3R.Model.FriPhases
 
 open P3R.Packing
 
@@ -53,8 +62,28 @@ def hidmerge (toks : List Nat) : List String :=
     | _ => ["bad-op"]
   | none => ["bad-op"]
 
+def pairs : List Nat → Option (List (Nat × Nat))
+  | [] => some []
+  | a :: h :: rest => (pairs rest).map ((a, h) :: ·)
+  | _ => none
+
+def friphase : List Nat → List String
+  | lb :: lf :: ic :: n :: rest =>
+    match pairs rest with
+    | some ps =>
+      if ps.length ≠ n ∨ n > 64 ∨ lb > 64 ∨ lf > 64 ∨ ps.any (fun p => p.1 > 64 ∨ p.2 > 64) then ["bad-op"] else
+      match friPhases ⟨lb, lf, ic, ps⟩ with
+      | .error e => [s!"friphase error:{e.name}"]
+      | .ok vs => ["friphase in=m ph=" ++ ",".intercalate (vs.map PhaseVerdict.name)]
+    | none => ["bad-op"]
+  | _ => ["bad-op"]
+
 def step (line : String) : List String :=
   match (line.trimAscii.toString.splitOn " ").filter (· ≠ "") with
+  | "friphase" :: rest =>
+    match rest.mapM String.toNat? with
+    | some toks => friphase toks
+    | none => ["bad-op"]
   | "hidmerge" :: rest =>
     match rest.mapM String.toNat? with
     | some toks => if toks.length > 20000 then ["bad-op"] else hidmerge toks
